@@ -14,7 +14,7 @@ Cfgs(k) == IF k = "connector"
 Init == /\ \E k \in Kinds, f \in Fams : \E c \in Cfgs(k) : S = S0(k, f, c)
         /\ lastop = "begin" /\ nops = 0
 
-Adv == \E ms \in {1000} : S.tmr # -1 /\ S.now < S.tmr /\ AdvOp(ms)
+Adv == \E ms \in {500, 1000} : S.tmr # -1 /\ S.now < S.tmr /\ AdvOp(ms)
 Arm == /\ Rearm
        /\ \E w \in {"C", "F", "D", "R"} : S.arm[w] = "none" /\
              \E a \in (IF S.kind = "connector" THEN CnArms ELSE ClArms) : a[w] # "none" /\ ArmOp(w, a[w])
